@@ -129,6 +129,8 @@ def atom(rng, hashable=False, orderable=None):
             ("DC(1)", "dataclass"), ("DC(2, 'y')", "dataclass"), ("2+3j", "complex"), ("-1j", "complex"), ("float('inf')", "inf"), ("-float('inf')", "inf"),
             ("Outer.Tok(1)", "nested_hasrepr"), ("Outer.Col.B", "nested_enum"), ("Outer.Rec(1)", "nested_dataclass"),
             ("Outer.Rec(2, 'z')", "nested_dataclass"), ("Outer.Kind", "nested_type")]
+    # a lone string that the formatter has to wrap (longer than the line) and that a docstring formatter would strip
+    opts += [("' ' + 'x' * 90 + ' '", "longstr"), ("'\"' + 'wide text ' * 9 + ' '", "longstr"), ("'y' * 95", "longstr")]
     opts += [("NT3(1, r=4)", "namedtuple"), ("NT3(2, 'z')", "namedtuple"), ("NT3(3, 'q', 5)", "namedtuple")]
     if not hashable:
         opts += [("DC3(1, c=5)", "dataclass"), ("DC3(2, d=(1,))", "dataclass"), ("DC3(3, 'x', 0, (2,))", "dataclass"), ("DC3(4, 'y')", "dataclass"),
@@ -215,6 +217,8 @@ def gen(rng, tier, shape=None):
         vals = [src]
     has_set = any(t in ("set", "frozenset") for t in tags)
     p_seeds = (0.5 if has_set else 0.03) if tier == "quick" else (0.6 if has_set else 0.05)
+    if "longstr" in tags:
+        p_seeds = 0.7          # formatter present / missing / replaced must only change the layout (C16)
     return {"op": op, "vals": vals, "tags": sorted(tags), "placement": rng.choice(["assert", "helper", "module", "loop"]),
             "seeds": rng.random() < p_seeds}
 
